@@ -269,6 +269,148 @@ theorem c15_model_checks (env : Env) (hwf : WF env = true) (h0 : Heap) (p : Prog
   simp only [checkC15, hinit, observe, hs.2, take_of_frame rfl hs.1]
   simp
 
+/-! ### arbitrary `init` / `op`; Merge with a custom `op`; every `init` of flatten(); errors -/
+
+/-- **Fold with ANY lawful factory and operator = functools.reduce.**  For every `init` that
+    allocates (`InitLaw`: an immediate, or a NEW object, on every call) and every `op` that reads
+    only its operands, mutates at most the accumulator, and returns an immediate or a container of
+    its own (`OpLaw`) — in-place operators (`+=`, `append`, `update`) and pure ones (`+`, `cons`)
+    alike — `Fold._fold` leaves every existing object alone and returns exactly
+    `functools.reduce(op, items, init())`: the same error, the same immediate, or an object at a
+    NEW address holding the reduced content. -/
+theorem c15_fold_any_op {h0 h : Heap} (c : Ctx h0 h) {ini : InitFn} {sv0 : SV} (I : InitLaw h0 ini sv0)
+    {f : OpFn} (L : OpLaw h0 f) {items : List Val} (hi : ∀ x ∈ items, Val.inb h0.length x = true) :
+    let out := foldWith ini f items h
+    (∀ a, a < h.length → out.2[a]? = h[a]?) ∧
+    match items.foldlM (foldStep f h0) sv0 with
+    | .error e => out.1 = .error e
+    | .ok (.imm v) => out.1 = .ok v
+    | .ok (.cell o) => ∃ a, out.1 = .ok (.ref a) ∧ h.length ≤ a ∧ out.2[a]? = some o := by
+  have hg := foldWith_spec c I L hi
+  refine ⟨hg.1.2, ?_⟩
+  have hr := hg.2
+  rw [refReduce_eq_foldlM] at hr
+  cases hf : items.foldlM (foldStep f h0) sv0 with
+  | error e => rw [hf] at hr; exact hr
+  | ok sv =>
+    rw [hf] at hr
+    cases sv with
+    | imm v => exact hr.1
+    | cell o => obtain ⟨a, h1, h2, h3, _⟩ := hr; exact ⟨a, h1, h2, h3⟩
+
+/-- **Merge with ANY lawful factory and operator**: `op(ret, v)` is called for its effect, its
+    result dropped; the object `init()` returned comes back, holding the successive merges. -/
+theorem c15_merge_any_op {h0 h : Heap} (c : Ctx h0 h) {ini : InitFn} {sv0 : SV} (I : InitLaw h0 ini sv0)
+    {f : OpFn} (L : OpLaw h0 f) {items : List Val} (hi : ∀ x ∈ items, Val.inb h0.length x = true) :
+    let out := mergeWith ini f items h
+    (∀ a, a < h.length → out.2[a]? = h[a]?) ∧
+    match items.foldlM (mergeStep f h0) sv0 with
+    | .error e => out.1 = .error e
+    | .ok (.imm v) => out.1 = .ok v
+    | .ok (.cell o) => ∃ a, out.1 = .ok (.ref a) ∧ h.length ≤ a ∧ out.2[a]? = some o := by
+  have hg := mergeWith_spec c I L hi
+  refine ⟨hg.1.2, ?_⟩
+  have hr := hg.2
+  rw [refReduce_eq_foldlM] at hr
+  cases hf : items.foldlM (mergeStep f h0) sv0 with
+  | error e => rw [hf] at hr; exact hr
+  | ok sv =>
+    rw [hf] at hr
+    cases sv with
+    | imm v => exact hr.1
+    | cell o => obtain ⟨a, h1, h2, h3, _⟩ := hr; exact ⟨a, h1, h2, h3⟩
+
+/-- every operator and every allocating factory of the catalogue meets the laws: `+=` (list:
+    extend in place; Acc: append in place; tuple / str / numbers: a new value), `+`, Count's
+    lambda, `dict.update` / `OrderedDict.update` / `Acc.update`, `first_wins`, `append`, `cons`;
+    `int`, `float`, `str`, `list`, `tuple`, `dict`, `OrderedDict`, `Acc`, a copying factory. -/
+theorem c15_catalogue_lawful (h0 : Heap) :
+    (∀ op : Op, OpLaw h0 (pyOp op)) ∧
+    (∀ i : Init, InitOK h0 i → ∃ sv, initSV h0 i = some sv ∧ InitLaw h0 (callInit i) sv) :=
+  ⟨pyOp_law h0, fun _ hi => callInit_law hi⟩
+
+/-- **Merge(op=first_wins): first writer wins.**  With the user operator
+    `lambda d, v: [d.setdefault(k, x) for k, x in v.items()]` every key maps to the value of the
+    FIRST pair (over all items, in order) carrying it. -/
+theorem c15_merge_first_wins (env : Env) (hwf : WFConv env = true) {h0 h : Heap} (c : Ctx h0 h)
+    (sub : List Val) (target : Val)
+    (hsub : ∀ k ∈ sub, Val.inb h0.length k = true) (ht : Val.inb h0.length target = true)
+    (items : List Val) (hitems : refItems env h0 sub target = .ok items)
+    (ds : List (List (Val × Val))) (hds : dictsOf h0 items = some ds) :
+    let out := mergeFn env sub .dict .firstWins h target
+    ∃ a es, out.1 = .ok (.ref a) ∧ h.length ≤ a ∧ out.2[a]? = some (.dict "dict" es) ∧
+      ∀ k, dictLookup es k = firstPair ds.flatten k := by
+  have hg := (mergeFn_spec c env (WFConv_parts hwf).1 sub .dict .firstWins (InitOK.plain h0 rfl rfl rfl) hsub ht).2
+  have hop : refMergeOp h0 .dict .firstWins = .ok .firstWins := rfl
+  simp only [refMerge, hop, refSpec, hitems, refKind, withInit, initSV,
+    reduce_firstWins_dicts h0 "dict" items ds [] hds, RefRes.ofSV] at hg
+  obtain ⟨a, h1, h2, h3, _⟩ := hg
+  refine ⟨a, _, h1, h2, h3, ?_⟩
+  intro k
+  rw [dictLookup_setDefaults]
+  rfl
+
+/-- **flatten(levels = n+1, init) for EVERY init** (by induction over the levels): `n` times
+    `chain.from_iterable`, then exactly what `Flatten(init)` does with the joined items — `init()`
+    called once, at the last level only. -/
+theorem c15_levels_any_init (env : Env) (hwf : WF env = true) {h0 h : Heap} (c : Ctx h0 h)
+    (sub : List Val) (init : InitArg) (hinit : InitArgOK h0 init) (n : Nat) (target : Val)
+    (hsub : ∀ k ∈ sub, Val.inb h0.length k = true) (ht : Val.inb h0.length target = true)
+    (items : List Val) (hitems : refItems env h0 sub target = .ok items) :
+    let out := flattenFn env sub init ((n : Int) + 1) h target
+    (∀ a, a < h.length → out.2[a]? = h[a]?) ∧
+    ResRel h0.length h.length out
+      (match joinN h0 n items with
+       | none => .err typeErr
+       | some ys => refKind h0 (mkFlatten [] init) ys) := by
+  obtain ⟨hcatch, hchain, _⟩ := WF_parts hwf
+  have hg := flattenFn_spec c env (levels := (n : Int) + 1) (fun _ => hchain) hcatch sub init hinit hsub ht
+  have h0l : (((n : Int) + 1) == 0) = false := by
+    simp only [beq_eq_false_iff_ne, ne_eq]; omega
+  have hneg : ¬ ((n : Int) + 1) < 0 := by omega
+  have htn : ((n : Int) + 1).toNat - 1 = n := by omega
+  rw [refFlattenFn_pos env h0 sub _ _ target h0l hneg, hitems, htn] at hg
+  refine ⟨hg.1.2, ?_⟩
+  have := hg.2
+  simp only [refAfter] at this
+  cases hj : joinN h0 n items with
+  | none => rw [hj] at this; exact this
+  | some ys => rw [hj] at this; exact this
+
+/-- **A handler that raises is a TypeError, not a FoldError**: `target_iter` looks the handler up
+    OUTSIDE its `try` (UnregisteredTarget → Fold.glomit's `except` → FoldError) and calls it
+    INSIDE (`except Exception` → TypeError, which Fold.glomit does not catch); `init()` is not
+    called, nothing is allocated. -/
+theorem c15_handler_error (env : Env) (hwf : WFConv env = true) (s : FoldSpec) (h : Heap) (target t : Val)
+    (hn : String) (hsub : evalSub h s.sub target = .ok t) (hlk : env.lk (t.clsName h) = .ok hn)
+    (hrun : runHandler hn h t = none) :
+    glomit env s h target = (.error typeErr, h) ∧ errR env typeErr = .err "TypeError" false := by
+  obtain ⟨_, hiter, _⟩ := WFConv_parts hwf
+  have hne : env.excTable.isSub "TypeError" "GlomError" = false := by
+    simp only [WFConv, Bool.and_eq_true, Bool.not_eq_eq_eq_not, Bool.not_true] at hwf
+    exact hwf.1.2
+  constructor
+  · simp [glomit, hsub, targetIter, applyHandler, hlk, hrun, handlerFailure, hiter, convertIterErr, typeErr]
+  · simp [errR, typeErr, hne]
+
+/-- **The sub-spec is evaluated first**: when it fails, that error (PathAccessError) is the
+    outcome — no handler is looked up (the registry, memo included, is untouched), `init()` is
+    not called, nothing is allocated. -/
+theorem c15_subspec_error_first (H : Hier) (env : Env) (s : FoldSpec) (r : Reg) (h : Heap) (target : Val)
+    (e : Err) (he : evalSub h s.sub target = .error e) :
+    glomitR H env s r h target = ((.error e, h), r) := by
+  simp [glomitR, he]
+
+/-- … and `init()` is called AFTER the handler was found and called: an unregistered target or a
+    raising handler leaves the heap exactly as it was (`c15_fold_error`, `c15_handler_error`);
+    Merge's constructor is the one place where `init()` runs outside an evaluation. -/
+theorem c15_merge_ctor_calls_init (sub : List Val) (h : Heap) :
+    (mkMerge sub .dict .none h).2 = h ++ [.dict "dict" []] ∧
+    (mkMerge sub .dict .iadd h).2 = h := by
+  constructor
+  · simp [mkMerge, callInit, materialise, Val.clsName, methodOf, Obj.cls]
+  · rfl
+
 /-! ### the target's iteration is the handler registered AT THE TIME OF THE CALL -/
 
 /-- **The memo is invisible.**  One `Fold.glomit` against the registry — `get_handler` consults and
@@ -357,6 +499,38 @@ theorem c15_history_checks (H : Hier) (env : Env) (hconv : WFConv env = true) (h
   simp only [checkC15R, hinit, observe, hs.2, take_of_frame rfl hf]
   simp
 
+/-! ### lazy Flatten is a pull transducer -/
+
+/-- **Laziness.**  `k` nested `chain.from_iterable` objects over a source iterator — what
+    `Flatten(init='lazy')` (`k = 1`) and `flatten(levels=k, init='lazy')` return — ask the source
+    for NOTHING when they are made, and then behave, `next()` by `next()`, exactly as the
+    reference says: the leaves of the `k`-fold join in depth-first order, each one pulled when
+    the source has been asked for the items up to the one it descends from and not one more; a
+    value that has to be iterated and is not iterable raises TypeError at that point, after the
+    leaves before it; StopIteration when the source is exhausted.  For every heap, every `k` and
+    every source (no size bound). -/
+theorem c15_lazy_pulls (h0 : Heap) (k : Nat) (xs : List Val) :
+    Lazy.lazyRun h0 k xs = Lazy.refLazyRun h0 k xs := by
+  simp only [Lazy.lazyRun, Lazy.refLazyRun, Lazy.srcLen_init, Nat.sub_self]
+  rw [Lazy.pulls_eq_stackObs h0 xs.length _ _ rfl, Lazy.stackObs_init]
+  simp
+
+/-- **Lazy = eager, value for value**: when every level is iterable, what the lazy object yields,
+    pulled to the end, is the `k`-fold `chain.from_iterable` of the source items — what eager
+    `Flatten` / `flatten(levels=k)` put into their result (`c15_flatten_eq_join`, `c15_levels`) —
+    and it ends in StopIteration with the whole source consumed. -/
+theorem c15_lazy_values (h0 : Heap) (k : Nat) (xs ys : List Val) (hj : joinN h0 k xs = some ys) :
+    Lazy.pulledValues (Lazy.lazyRun h0 k xs).2 = ys ∧ Lazy.endsInStop (Lazy.lazyRun h0 k xs).2 = true := by
+  rw [c15_lazy_pulls]
+  have := Lazy.refPulls_values h0 k xs.length xs
+  rw [Lazy.seqLeaves_ok_join h0 k xs ys hj] at this
+  exact this
+
+/-- the model's run passes the lazy checker (the form evaluated on the implementation's observation) -/
+theorem c15_lazy_checks (h0 : Heap) (k : Nat) (xs : List Val) :
+    Lazy.checkLazy h0 k xs (Lazy.lazyRun h0 k xs) = true := by
+  simp [Lazy.checkLazy, c15_lazy_pulls]
+
 /-! ### non-vacuity: concrete inputs meet every hypothesis; counter-examples without them -/
 
 /-- the handler table of the default registrations, written out (it meets `defaultsOK`, as the
@@ -422,5 +596,88 @@ theorem c15_closed_heap_counterexample :
     (runProg exEnv (.flatten [] (.init .list)) [.ref 0] h0).1 = [.ok (.ref 1)] ∧
     refSpec exEnv h0 (mkFlatten [] (.init .list)) (.ref 0) = .err typeErr := by
   decide
+
+/-- The law `OpLaw.ok` is needed: an operator that hands back its ELEMENT (`lambda a, v: v`) makes
+    Fold return an input object — aliasing of the caller's making, as with `functools.reduce`. -/
+theorem c15_op_returning_element_counterexample :
+    let h0 : Heap := [.list "list" [.int 1], .list "list" [.ref 0]]
+    let last : OpFn := fun _ _ v => .ok (.value (.imm v))
+    (foldWith (callInit .list) last [.ref 0] h0).1 = .ok (.ref 0) ∧
+    ¬ OpLaw h0 last := by
+  refine ⟨rfl, ?_⟩
+  intro L
+  have := (L.ok (h := []) (sv := .imm .none) (v := .ref 0) (r := .value (.imm (.ref 0)))
+    (by intro a; simp) rfl).1
+  exact this 0 rfl
+
+/-- The extracted `except UnregisteredTarget → FoldError` is needed: without the clause the same
+    target raises UnregisteredTarget. -/
+theorem c15_catch_needed_counterexample :
+    let env : Env := { exEnv with foldCatch := [] }
+    (glomit env (mkSum [] .int) [] (.int 5)).1 = .error (.raised "UnregisteredTarget") ∧
+    (glomit exEnv (mkSum [] .int) [] (.int 5)).1 = .error .fold := by decide
+
+-- floats: ONE IEEE-754 addition per step, left to right (`functools.reduce(operator.add, …)`):
+-- 0.1 + 0.2 = 0.30000000000000004
+example : (glomit exEnv (mkSum [] .int) [.list "list" [.float "3fb999999999999a", .float "3fc999999999999a"]]
+    (.ref 0)).1 = .ok (.float "3fd3333333333334") := by decide
+-- order matters: [1e16, 1.0, 1.0] sums to 1e16, [1.0, 1.0, 1e16] to 1.0000000000000002e16
+-- (the builtin `sum()` of CPython ≥ 3.12 compensates and answers 1.0000000000000002e16 for both)
+example : (glomit exEnv (mkSum [] .float)
+      [.list "list" [.float "4341c37937e08000", .float "3ff0000000000000", .float "3ff0000000000000"]] (.ref 0)).1 =
+      .ok (.float "4341c37937e08000") ∧
+    (glomit exEnv (mkSum [] .float)
+      [.list "list" [.float "3ff0000000000000", .float "3ff0000000000000", .float "4341c37937e08000"]] (.ref 0)).1 =
+      .ok (.float "4341c37937e08001") := by decide
+-- an int start turns float at the first float addend; bool counts as int; inf - inf is NaN
+example : (glomit exEnv (mkSum [] .int) [.list "list" [.int 1, .bool true, .float "3fe0000000000000"]] (.ref 0)).1 =
+      .ok (.float "4004000000000000") ∧
+    (glomit exEnv (mkSum [] .int) [.list "list" [.float "7ff0000000000000", .float "fff0000000000000"]] (.ref 0)).1 =
+      .ok (.float "7ff8000000000000") := by decide
+-- a copying factory: every evaluation starts from a NEW copy of `[1, 2]` (addresses 2 and 3), the original untouched
+example : (runProg exEnv (.fold [] (.copyOf (.ref 0)) .append) [.ref 1, .ref 1]
+      [.list "list" [.int 1, .int 2], .list "list" [.int 7]]) =
+    ([.ok (.ref 2), .ok (.ref 3)],
+     [.list "list" [.int 1, .int 2], .list "list" [.int 7], .list "list" [.int 1, .int 2, .int 7],
+      .list "list" [.int 1, .int 2, .int 7]]) := by decide
+
+/-- a history on a small hierarchy: `Box` is iterable (walks `names`); after one Flatten it is
+    registered exactly with the handler `h:items`; the next Flatten of the SAME object walks
+    `items` — the lookup memoised by the first evaluation does not survive the registration. -/
+private def exHier : Hier := (C13.HierTab.toHier
+  { mro := [("object", ["object"]), ("list", ["list", "object"]), ("Box", ["Box", "object"]),
+            ("_AbstractIterable", ["_AbstractIterable", "object"])]
+    inst := [("object", "object"), ("list", "list"), ("list", "object"), ("list", "_AbstractIterable"),
+             ("Box", "Box"), ("Box", "object"), ("Box", "_AbstractIterable")]
+    sub := [("object", "object"), ("list", "list"), ("list", "object"), ("Box", "Box"), ("Box", "object"),
+            ("_AbstractIterable", "_AbstractIterable"), ("_AbstractIterable", "object")]
+    auto := [("auto_iterate", [("object", "False"), ("list", "iter"), ("Box", "iter"), ("_AbstractIterable", "False")]),
+             ("auto_get", [("object", "getattr"), ("list", "getattr"), ("Box", "getattr"),
+                           ("_AbstractIterable", "getattr")])] })
+
+private def exBoxHeap : Heap :=
+  [ .list "list" [.int 1], .list "list" [.int 2], .list "list" [.ref 0],     -- names = [[1]]
+    .list "list" [.ref 1],                                                     -- items = [[2]]
+    .inst "Box" [("names", .ref 2), ("items", .ref 3)] ]
+
+example :
+    let out := runProgR exHier genEnv (.flatten [] (.init .list))
+      [.eval (.ref 4), .register "Box" true [("iterate", some "h:items")], .eval (.ref 4)]
+      (specReg exHier) exBoxHeap
+    out.1 = [.ok (.ref 5), .ok (.ref 6)] ∧
+    out.2.1[5]? = some (.list "list" [.int 1]) ∧ out.2.1[6]? = some (.list "list" [.int 2]) ∧
+    -- the first evaluation DID memoise `Box → iter`
+    (glomitR exHier genEnv (mkFlatten [] (.init .list)) (specReg exHier) exBoxHeap (.ref 4)).2.cache =
+      [(("Box", "iterate"), some "iter")] := by decide
+
+-- laziness: `flatten(gen([[1], [], [2, 3]], []]), levels=1, init='lazy')`: nothing fetched at creation; 1 after
+-- one item; 2 and 3 after the third (the empty second item is fetched on the way); stop after all four
+example : Lazy.refLazyRun [.list "list" [.int 1], .list "list" [], .list "list" [.int 2, .int 3]] 1
+      [.ref 0, .ref 1, .ref 2, .ref 1] =
+    (0, [.item (.int 1) 1, .item (.int 2) 3, .item (.int 3) 3, .stop 4]) := by decide
+-- two lazy levels over `[[[1], 5], [[2]]]`: 1 is yielded, then 5 is not iterable: TypeError, the second item not fetched
+example : Lazy.refLazyRun [.list "list" [.int 1], .list "list" [.ref 0, .int 5], .list "list" [.int 2],
+      .list "list" [.ref 2]] 2 [.ref 1, .ref 3] =
+    (0, [.item (.int 1) 1, .error 1]) := by decide
 
 end Glom.Props.C15
